@@ -416,6 +416,16 @@ def label_correspondence(tier, seed):
         use_labels = rng.random() < 0.5
         if use_labels and kind != "relation" and rng.random() < 0.7:
             attrs.append((M.PROV["label"], rng.choice(texts + [M.Literal("l<a>b", langtag="en")])))
+        # at most one prov:label: with several, which one an element is drawn under follows the iteration order of a set
+        seen_label = False
+        kept = []
+        for a, v in attrs:
+            if a == M.PROV["label"]:
+                if seen_label:
+                    continue
+                seen_label = True
+            kept.append((a, v))
+        attrs = kept
         if kind == "relation":
             d.entity(EX["e1"]); d.activity(EX["a1"])
             r = d.wasGeneratedBy(EX["e1"], EX["a1"], None, EX["g"] if rng.random() < 0.5 else None, attrs)
